@@ -168,6 +168,16 @@ pub async fn scenario() {
 			.build_with_tokio(tx, rx),
 	);
 	let ops: Arc<Mutex<Vec<(OpRec, u64, tokio::time::Instant, tokio::time::Instant)>>> = Arc::default(); // (.., invoked at, completed at)
+	// somebody waits on on_disconnect() from the very beginning, while the connection is still healthy
+	let early_disc: Arc<Mutex<Option<String>>> = Arc::default();
+	let early_watcher = {
+		let (client, out) = (client.clone(), early_disc.clone());
+		rt::spawn("early-disconnect-watcher", async move {
+			let e = client.on_disconnect().await;
+			rt::event("early-on-disconnect", format!("{e:?}"));
+			*out.lock().unwrap() = Some(format!("{e:?}"));
+		})
+	};
 	let peer_log: Arc<Mutex<PeerLog>> = Arc::default();
 	let nonce_ctr = Arc::new(AtomicU64::new(1));
 	let peer = spawn_peer(wire.clone(), peer_log.clone(), PeerCfg { hostile: false, id_kind_str: id_str });
@@ -256,6 +266,19 @@ pub async fn scenario() {
 		None
 	};
 	rt::event("end-state", format!("connected={connected} on_disconnect={on_disc:?}"));
+	// the watcher that has been waiting since before the failure sees the same cause
+	match (&on_disc, early_disc.lock().unwrap().clone()) {
+		(Some(late), Some(early)) => {
+			if early.contains(PLACEHOLDER) {
+				rt::violate(P, "placeholder-cause", "on_disconnect:waiting-since-before-the-failure", format!("an on_disconnect() that was already waiting when the connection failed resolved with the placeholder: {early}"));
+			} else if &early != late && !late.contains(PLACEHOLDER) {
+				rt::violate(P, "inconsistent-cause", "on_disconnect:early-vs-late", format!("on_disconnect() waiting since before the failure resolved with {early}, one started afterwards with {late}"));
+			}
+		}
+		(Some(_), None) => rt::violate(P, "on-disconnect-hangs", "waiting-since-before-the-failure", "the client is disconnected but an on_disconnect() that was already waiting has not resolved"),
+		_ => {}
+	}
+	early_watcher.abort();
 	check(&wire, &ops.lock().unwrap(), &peer_log.lock().unwrap(), kind, connected, on_disc, first_phase, presub && consumer.is_some(), &consumer_ended.lock().unwrap());
 	if sweep_base {
 		rt::probe_n("seam_events", wire.lock().seam_count);
